@@ -178,4 +178,37 @@ theorem span_eq_krylov (T : V →ₗ[K] V) (v : ℕ → V) (Ht : ℕ → ℕ →
 
 end krylov
 
+/-! ### the Arnoldi span of a cycle is the Krylov space of the preconditioned operator -/
+section arnoldiKrylov
+variable {K : Type} [Field K] [LinearOrder K] [IsStrictOrderedRing K]
+
+/-- the Krylov space `K_j(T, r₀) = span{T^i r₀ : i < j}` of the preconditioned operator `T = A Pl` (right) / `Pl A`
+(left) and the measured residual `r₀` at the start of the cycle -/
+def gmresKrylov (side : Side) (n : ℕ) (A : CRS K) (Pl : (Fin n → K) →ₗ[K] (Fin n → K)) (r0 : Fin n → K) (j : ℕ) :
+    Submodule K (Fin n → K) :=
+  Submodule.span K ((fun i : ℕ => (⇑(Tl side (matOf A n n) Pl))^[i] r0) '' Set.Iio j)
+
+theorem arnoldiSpan_eq_krylov (n : ℕ) (A : CRS K) (hA : A.WF) (hn : A.nrows = n) (hm : A.ncols = n)
+    (P : Vec K → Vec K) (Pl : (Fin n → K) →ₗ[K] (Fin n → K)) (hP : PDenotes n P Pl) (side : Side) (sqrt : K → K)
+    (f : Vec K) (st : GMRES.St K) (hst : CycleStart side sqrt A P f st) (j : ℕ)
+    (hroots : RootsExact side sqrt A P st j) (hnb : ∀ i, i < j → arnoldiNorm side sqrt A P st i ≠ 0) :
+    arnoldiSpan side sqrt A P st n j = gmresKrylov side n A Pl (vecOf n st.w.r) j := by
+  obtain ⟨_, _, harn, hr0⟩ := cycle_basis n A hA hn hm P Pl hP side sqrt f st hst j hroots hnb
+  have h := span_eq_krylov (Tl side (matOf A n n) Pl)
+    (fun a => vecOf n ((innerPass side sqrt A P st j).w.v.get a)) (hTilde side sqrt A P st j) st.normR
+    (vecOf n st.w.r) j hst.ne hr0 harn
+    (fun i hi => by
+      show (innerPassG side sqrt A P st g00 j).2.Ht.get (i + 1) i ≠ 0
+      rw [ghost_sub side sqrt A P st g00 j i hi]; exact hnb i hi)
+    j (Nat.le_succ j)
+  unfold arnoldiSpan gmresKrylov
+  rw [← h]
+  congr 1
+  ext x
+  constructor
+  · rintro ⟨i, rfl⟩; exact ⟨i.val, i.isLt, rfl⟩
+  · rintro ⟨i, hi, rfl⟩; exact ⟨⟨i, hi⟩, rfl⟩
+
+end arnoldiKrylov
+
 end Amgcl.Krylov
